@@ -102,6 +102,10 @@ pub trait Format: Sync {
     fn triple_sites(&self, _seed: &Seed, _thorough: bool) -> Vec<usize> {
         vec![]
     }
+    /// sites that hold a packed 4 x u8 rectangle (byte-granular classes); none for most formats
+    fn rect_sites(&self, _seed: &Seed) -> Vec<usize> {
+        vec![]
+    }
     /// false where no entry point reads through a counting reader (path / slice APIs)
     fn measures_consumption(&self) -> bool {
         true
@@ -278,9 +282,9 @@ fn all_formats() -> Vec<Box<dyn Format>> {
 const FORMAT_NAMES: [&str; 13] = ["wdt", "wdl", "dbc", "blp", "skin", "anim", "m2", "wmo_root", "wmo_group", "adt", "ptch", "codec", "mpq"];
 /// seeds each format is expected to yield (a seed is dropped when the crate's writer refuses it or its
 /// own parser no longer accepts it); fewer is reported in the evidence, none is a machinery failure
-const EXPECTED_SEEDS: [usize; 13] = [7, 6, 10, 12, 8, 8, 14, 9, 8, 16, 4, 5, 17];
+const EXPECTED_SEEDS: [usize; 13] = [7, 6, 10, 12, 8, 8, 14, 9, 8, 17, 4, 5, 17];
 /// the same for thorough (primary + additional seeds)
-const EXPECTED_SEEDS_T: [usize; 13] = [12, 9, 15, 27, 14, 11, 23, 16, 15, 16, 7, 10, 31];
+const EXPECTED_SEEDS_T: [usize; 13] = [12, 9, 15, 27, 14, 11, 23, 16, 15, 17, 7, 10, 31];
 
 // ------------------------------------------------------------------ panic site -> function cache
 
@@ -373,6 +377,10 @@ const PAIR_SITES_T: usize = 40;
 /// the same for the additional (tier2) seeds of thorough
 const PAIR_SITES_T2: usize = 16;
 
+/// header-level sites per seed (in file order) whose single bytes deviate: quick / thorough
+const BYTE_SITES_Q: usize = 8;
+const BYTE_SITES_T: usize = 400;
+
 /// site / chunk-op budgets per seed
 struct Budget {
     sites: usize,
@@ -400,7 +408,8 @@ impl FormatSpace {
         let pair_seeds: Vec<usize> = by_hdr.into_iter().take(b.pair_seeds).collect();
         let mut spaces = vec![];
         for (i, s) in seeds.iter().enumerate() {
-            let all: Vec<usize> = (0..s.sites.len()).collect();
+            // (quick: without the sites of the later sub-structure maps, so that its strided 1-field class stays as it was)
+            let all: Vec<usize> = (0..s.sites.len() - if tier == Tier::Thorough { 0 } else { s.extra_sites.min(s.sites.len()) }).collect();
             // header-level sites are always kept; the rest is strided to the budget
             let hdr: Vec<usize> = all.iter().copied().filter(|&k| s.sites[k].header).collect();
             let rest: Vec<usize> = all.iter().copied().filter(|&k| !s.sites[k].header).collect();
@@ -432,6 +441,8 @@ impl FormatSpace {
                 appends: if tier == Tier::Thorough { APPENDS.len() } else { 0 },
                 triple_sites: fmt.triple_sites(s, tier == Tier::Thorough),
                 triple_vals: if tier == Tier::Thorough { VALS3_T.to_vec() } else { VALS3_Q.to_vec() },
+                rect_sites: fmt.rect_sites(s),
+                byte_sites: (0..s.sites.len()).filter(|&k| s.sites[k].header).take(if tier == Tier::Thorough { BYTE_SITES_T } else { BYTE_SITES_Q }).collect(),
             });
         }
         let mut cum = vec![0u64];
@@ -471,6 +482,11 @@ impl FormatSpace {
     fn axes(&self) -> Value {
         let mut v = self.axes_base();
         let triples = self.spaces.iter().map(|s| s.triple_cases()).sum::<u64>();
+        {
+            let m = v.as_object_mut().unwrap();
+            m.insert("rect_byte_cases".into(), json!(self.spaces.iter().map(|s| s.rect_cases()).sum::<u64>()));
+            m.insert("header_byte_cases".into(), json!(self.spaces.iter().map(|s| s.byte_cases()).sum::<u64>()));
+        }
         if triples > 0 {
             let m = v.as_object_mut().unwrap();
             m.insert("triple_cases".into(), json!(triples));
@@ -503,7 +519,7 @@ impl FormatSpace {
 fn set_class_flags(s: &Seed, d: &Dev) {
     LIGHT.store(matches!(d, Dev::Field2 { .. } | Dev::Field3 { .. }), std::sync::atomic::Ordering::Relaxed);
     let heavy = match d {
-        Dev::Field2 { .. } | Dev::Field3 { .. } | Dev::Prefix(_) => false,
+        Dev::Field2 { .. } | Dev::Field3 { .. } | Dev::Prefix(_) | Dev::Byte { .. } | Dev::Byte2 { .. } => false,
         Dev::Field { site, .. } => s.sites[*site].header,
         _ => true,
     };
@@ -825,7 +841,7 @@ fn main() {
             for (k, x) in sp.spaces.iter().enumerate() {
                 let base = sp.cum[k];
                 let vv = (VALS2.len() * VALS2.len()) as u64;
-                let classes: [(&str, u64); 8] = [
+                let classes: [(&str, u64); 10] = [
                     ("seed", 1),
                     ("prefix", x.prefixes.len() as u64),
                     ("field", x.field_cases()),
@@ -834,6 +850,8 @@ fn main() {
                     ("near", x.near_cases()),
                     ("append", x.appends as u64),
                     ("triple", x.triple_cases()),
+                    ("rect", x.rect_cases()),
+                    ("byte", x.byte_cases()),
                 ];
                 let mut off = 0u64;
                 let mut seed_total = 0.0;
